@@ -204,19 +204,15 @@ Proof.
   destruct (r_epoch s <? 0) eqn:E; [lia|]. cbn. now rewrite Hc.
 Qed.
 
-(* as coded, and NOT inert: while a dual-stack endpoint is still negotiating the version, the same warning
-   alert ends the handshake (the error is returned straight out of negotiateVersionClient / -Server) *)
-Theorem warning_alert_negotiating_refuted W lease s w level desc :
-  r_closed s = false -> w_epoch w = 0 -> w_clear w = CAlert level desc -> is_warning (CAlert level desc) = true ->
-  check maxseq48 (get_win W 0 (r_wins s)) (w_seq w) = true ->
-  snd (recv_conn_neg W lease false true false s w) = [OMark 0 (w_seq w); OErr].
-Proof.
-  intros Hc He Hb Hw Hk. unfold recv_conn_neg. rewrite recv_fb_open. unfold recv, dispatch.
-  rewrite Hc, He, Hb, Hk.
-  cbn [is_warning] in Hw. apply negb_true_iff in Hw. rewrite Hw.
-  assert (Hd : (desc =? desc_close_notify) = false) by (apply orb_false_iff in Hw; tauto). rewrite Hd.
-  destruct (r_epoch s <? 0) eqn:E; [lia|]. reflexivity.
-Qed.
+(* ... and so it is while a dual-stack endpoint is still negotiating the version (abcaac6; before, the
+   warning alert was returned straight out of negotiateVersionClient / -Server and ended the handshake) *)
+Theorem warning_alert_inert_during_negotiation W lease full est s w level desc :
+  w_epoch w = 0 -> w_clear w = CAlert level desc -> is_warning (CAlert level desc) = true ->
+  let r := recv_conn_neg W lease full true est s w in
+  (snd r = [] \/ snd r = [OMark 0 (w_seq w)]) /\
+  r_epoch (fst r) = r_epoch s /\ r_init (fst r) = r_init s /\ r_queue (fst r) = r_queue s /\
+  r_closed (fst r) = r_closed s /\ r_cid (fst r) = r_cid s.
+Proof. unfold recv_conn_neg. apply warning_alert_inert_before_establishment. Qed.
 
 (* ---------- forged records ---------- *)
 
